@@ -362,6 +362,26 @@ def observe(sc, layout, code, out, err):
                 got = rebuilt.get(p, join_lines(split_lines(orig_by_name[p])))
                 if got != join_lines(split_lines(t)):
                     report_ok = False
+        elif eff == "checkstyle":
+            # one well-formed document; one <file> element per emitted file, in emission order;
+            # every <error line=N message="Should be `x`"> names a line of the formatted text:
+            # x is its line N; a file has errors iff the formatted text has a line the
+            # original lacks at that place
+            import xml.etree.ElementTree as ET
+            doc = ET.fromstring(out)
+            if doc.tag != "checkstyle" or [f.get("name") for f in doc] != [p for (p, k, t) in emitted]:
+                report_ok = False
+            for fe, (p, k, t) in zip(doc, emitted):
+                new_lines = split_lines(t)
+                errs = [(int(e.get("line")), e.get("message")) for e in fe]
+                for (ln, msg) in errs:
+                    if not (msg.startswith("Should be `") and msg.endswith("`")) or \
+                            not (1 <= ln <= len(new_lines)) or new_lines[ln - 1] != msg[11:-1]:
+                        report_ok = False
+                if (k == "F" and not unix) and errs:
+                    report_ok = False
+                if k == "U" and orig_by_name[p].count("fn  k") and not errs:
+                    report_ok = False
         elif eff == "modified" and len(emitted) == 1:
             (p, k, t) = emitted[0]
             if apply_modified(out, orig_by_name[p]) != join_lines(split_lines(t)):
